@@ -231,11 +231,150 @@ def _selfcheck(sessions: list[dict], tmp: str):
         raise tla.MachineryError(f"selfcheck: flipped truth-table bit in session {target} was not rejected")
 
 
+# --------------------------------------------------------------------------- MarkerNormalForm: MC + B1
+P_ATOMS = {(1,): 'python_version < "3.8"', (2, 3): 'python_version >= "3.8"', (1, 2): 'python_version < "3.9"',
+           (3,): 'python_version >= "3.9"', (2,): 'python_version == "3.8"', (1, 3): 'python_version != "3.8"'}
+R_ATOMS = {(1,): 'sys_platform in "a"', (1, 2): 'sys_platform in "a b"', (2,): 'sys_platform in "b"', (2, 3): 'sys_platform in "b c"',
+           (3,): 'sys_platform in "c"', (1, 3): 'sys_platform in "a c"'}
+NF_GRID = [{"python_version": f"3.{6 + p}", "python_full_version": f"3.{6 + p}.0", "sys_platform": "abc"[r - 1]} for p in (1, 2, 3) for r in (1, 2, 3)]
+VAR_NAME = {"p": "python_version", "r": "sys_platform"}
+
+
+def nf_text(m: dict) -> str:
+    k = m["k"]
+    if k == "empty":
+        return "<empty>"
+    if k == "any":
+        return ""
+    if k == "atom":
+        key = tuple(sorted(m["set"]))
+        return (P_ATOMS if m["var"] == "p" else R_ATOMS)[key]
+    parts = []
+    for c in m["ch"]:
+        t = nf_text(c)
+        parts.append(f"({t})" if c["k"] in ("and", "or") else t)
+    return (" and " if k == "and" else " or ").join(parts)
+
+
+def nf_holds(m: dict, p: int, r: int) -> bool:
+    k = m["k"]
+    if k == "empty":
+        return False
+    if k == "any":
+        return True
+    if k == "atom":
+        return (p if m["var"] == "p" else r) in m["set"]
+    vals = [nf_holds(c, p, r) for c in m["ch"]]
+    return all(vals) if k == "and" else any(vals)
+
+
+def _nf_chunk(states):
+    from dep_logic.markers import parse_marker
+    fails, n = [], 0
+    for st in states:
+        op = st["op"]
+        try:
+            x = parse_marker(nf_text(st["x"]))
+            y = parse_marker(nf_text(st["y"]))
+        except Exception as e:  # noqa: BLE001
+            fails.append(("C07", f"C07:nf-b1:parse-raises-{type(e).__name__}", f"{nf_text(st['x'])!r} / {nf_text(st['y'])!r}: {e!r}", {"x": nf_text(st["x"])}))
+            continue
+        ctx = {"kind": "normal-form-vector", "x": nf_text(st["x"]), "y": nf_text(st["y"]), "op": op}
+        n += 1
+
+        def call():
+            if op == "and":
+                return x & y
+            if op == "or":
+                return x | y
+            v = VAR_NAME[op.split("_")[1]]
+            return x.exclude(v) if op.startswith("exclude") else x.only(v)
+        res, exc = drive_marker.timed(call)
+        if exc == "Timeout":
+            continue
+        pidx = "C02" if op in ("and", "or") else "C12"
+        if exc:
+            fails.append((pidx, f"{pidx}:nf-b1:{op}:raises-{exc}", f"{op} on {ctx['x']!r}, {ctx['y']!r} raised {exc}", ctx))
+            continue
+        want = [nf_holds(st["res"], p, r) for p in (1, 2, 3) for r in (1, 2, 3)]
+        got = drive_marker.table_of(res, NF_GRID)
+        ctx["result"] = drive_marker._key(res)
+        if op in ("and", "or"):
+            if got != want:
+                fails.append(("C02", f"C02:nf-b1:{op}({drive_marker.shape_summary(drive_marker.shape_of(x))},{drive_marker.shape_summary(drive_marker.shape_of(y))}):table",
+                              f"{ctx['x']!r} {op} {ctx['y']!r} -> {ctx['result']!r}: truth table differs from the specification's result", ctx))
+        else:
+            v = VAR_NAME[op.split("_")[1]]
+            rv = drive_marker.vars_of(res)
+            tx = drive_marker.table_of(x, NF_GRID)
+            if op.startswith("exclude"):
+                if v in rv:
+                    fails.append(("C12", f"C12:nf-b1:{op}:leaks-variable", f"{ctx['x']!r}.exclude({v!r}) -> {ctx['result']!r}", ctx))
+                elif v not in drive_marker.vars_of(x) and got != tx:
+                    fails.append(("C12", f"C12:nf-b1:{op}:changes-meaning", f"{ctx['x']!r}.exclude({v!r}) -> {ctx['result']!r}", ctx))
+            else:
+                if not rv <= {v}:
+                    fails.append(("C12", f"C12:nf-b1:{op}:leaks-variable", f"{ctx['x']!r}.only({v!r}) -> {ctx['result']!r}", ctx))
+                elif any(a and not b for a, b in zip(tx, got)):
+                    fails.append(("C12", f"C12:nf-b1:{op}:not-implied", f"{ctx['x']!r}.only({v!r}) -> {ctx['result']!r}", ctx))
+                elif drive_marker.vars_of(x) <= {v} and got != tx:
+                    fails.append(("C12", f"C12:nf-b1:{op}:changes-meaning", f"{ctx['x']!r}.only({v!r}) -> {ctx['result']!r}", ctx))
+            if got != want and not fails:
+                pass     # the specification's projection may legitimately differ in strength; the property clauses above decide
+        reason = nf_reason(drive_marker.shape_of(res))
+        if reason:
+            opname = op.split("_")[0]
+            fails.append(("C15", f"C15:{opname}:normal_form:{reason}", f"{op} on {ctx['x']!r}, {ctx['y']!r} -> {ctx['result']!r} is not in normal form", ctx))
+    return n, fails
+
+
+def normal_form_mc(rep: Report, pid: str, thorough: bool) -> None:
+    """TLC on MarkerNormalForm (the transcribed rewriting engine) + replay of every transition."""
+    tmp = tempfile.mkdtemp(prefix="verif_nf_")
+    try:
+        cfgp = os.path.join(tmp, "c.cfg")
+        invs = {"C02": ["Sound", "InputsNormal"], "C15": ["ResultNormal", "InputsNormal"], "C12": ["Projections"], "C07": ["InputsNormal"]}[pid]
+        open(cfgp, "w").write('SPECIFICATION PairsSpec\nCONSTANTS\n Vars = {"p", "r"}\n Dom = {1, 2, 3}\n AtomSel <- SelQuick\n' +
+                              "".join(f"INVARIANT {i}\n" for i in invs) + "CHECK_DEADLOCK FALSE\n")
+        d = os.path.join(tmp, "d")
+        r = tla.run_tlc("MarkerNormalFormMC.tla", cfgp, workers=16, args=["-dump", d], heap="6g")
+        if r.violated:
+            rep.violation(f"{pid}:spec:MarkerNormalForm:{r.violated}", f"TLC: invariant {r.violated} violated by the transcribed rewriting engine", {"tlc_tail": r.out[-2500:]})
+            return
+        tla.require_ok(r, "TLC MarkerNormalForm")
+        rep.add("states", r.distinct)
+        rep.add("transitions", r.generated)
+        rep.cov.setdefault("tlc_runs", []).append({"module": "MarkerNormalForm", "invariants": invs, "distinct": r.distinct, "wall_s": round(r.wall, 1)})
+        states = [s for s in tla.load_dump(d + ".dump") if s["op"] != "init"]
+    finally:
+        shutil.rmtree(tmp, ignore_errors=True)
+    if pid == "C12":
+        states = [s for s in states if s["op"] not in ("and", "or")]
+    elif not thorough:
+        import random
+        random.Random(rep.seed).shuffle(states)
+        states = states[:12000]
+    size = max(1, len(states) // 48)
+    total = 0
+    with mp.Pool(16) as pool:
+        for n, fails in pool.map(_nf_chunk, [states[i:i + size] for i in range(0, len(states), size)]):
+            total += n
+            for (p, sig, detail, vec) in fails:
+                if p == pid:
+                    rep.violation(sig, detail, vec)
+    rep.add("traces_validated_against_impl", total)
+    rep.count("normal_form_vectors_replayed", total)
+    if states:
+        rep.sample({"binding": "B1-normal-form", "x": nf_text(states[0]["x"]), "y": nf_text(states[0]["y"]), "op": states[0]["op"], "spec_result": nf_text(states[0]["res"])})
+
+
 def run(pid: str, tier: str, replay: str | None = None) -> int:
     rep = Report(pid, tier, "model_checking")
     thorough = tier == "thorough"
     if replay:
         return _replay(rep, replay)
+    if pid in ("C02", "C15", "C12"):
+        normal_form_mc(rep, pid, thorough)
     marker_sessions(rep, (pid,), n_random=(8000 if thorough else 900), n_law=(3000 if thorough else 400))
     rep.set(rule="random marker sessions (2-3 parsed markers of depth <= 2 over 2-3 variables, then &, |, reparse, only, exclude, "
                  "without_extras on earlier results); truth tables from the real evaluate() on the region grid of the session's literals; "
